@@ -85,7 +85,7 @@ def base_env():
     env['OPENBLAS_NUM_THREADS'] = '1'
     env['MKL_NUM_THREADS'] = '1'
     env['MPLBACKEND'] = 'Agg'
-    pp = [VERIF, os.path.join(VERIF, '.deps'), '/repo']
+    pp = [VERIF, os.path.join(VERIF, '.deps'), os.environ.get('VERIF_REPO', '/repo')]
     env['PYTHONPATH'] = ':'.join(pp)
     return env
 
@@ -158,7 +158,7 @@ def run_check(pid, tier):
         env2 = dict(env, VERIF_PYTEST_OUT=out)
         try:
             p = subprocess.run([PY, '-m', 'pytest', '-q', '-p', 'no:cacheprovider', '-p', 'vp.pytest_monitors', '--timeout=900',
-                                '--continue-on-collection-errors', 'compmech'], cwd='/repo', env=env2, timeout=2400,
+                                '--continue-on-collection-errors', 'compmech'], cwd=os.environ.get('VERIF_REPO', '/repo'), env=env2, timeout=2400,
                                stdout=subprocess.PIPE, stderr=subprocess.STDOUT, text=True)
             data = json.load(open(out))
             for r in data['records']:
@@ -366,8 +366,10 @@ def aggregate(pid, tier, seed, plan, recs, problems, binfo, served, budget_stops
             ev['coverage'].update(mod.extra_evidence(cases))
         except Exception:
             ev['coverage']['extra_evidence_error'] = traceback.format_exc()[-500:]
-    os.makedirs(os.path.join(VERIF, 'evidence'), exist_ok=True)
-    with open(os.path.join(VERIF, 'evidence', '%s.json' % pid), 'w') as f:
+    # evidence of runs against another tree (VERIF_REPO set by hand for seeded-change experiments) is kept apart
+    evdir = os.path.join(VERIF, 'evidence') if os.environ.get('VERIF_REPO', '/repo') == '/repo' else os.path.join(VERIF, '.build', 'evidence_other_tree')
+    os.makedirs(evdir, exist_ok=True)
+    with open(os.path.join(evdir, '%s.json' % pid), 'w') as f:
         json.dump(ev, f, indent=1)
 
     print('%s %s seed=%d: %d cases, %d distinct non-trivial, %d oracle judgements, %d rejected, '
